@@ -169,3 +169,107 @@ def c_phase_order(ctx, it, cfg):
             continue
         ctx.prove('phase-order-%s-gives-the-same-step' % ''.join(map(str, perm)), eq(run(perm), base))
     ctx.prove('step-is-positive', gt(base, 0))
+
+
+@REG.contract('element-order/driving-force-methods', [TH + ':GeneralThermodynamics._getDrivingForceSampling', TH + ':GeneralThermodynamics._getDrivingForceApprox',
+              TH + ':GeneralThermodynamics._getDrivingForceCurvature', TH + ':GeneralThermodynamics._resetDrivingForceCache'],
+              configs=[dict(o, name=o['name'] + ' ' + meth, method=meth) for o in element_orders() for meth in ('sampling', 'approximate', 'curvature')])
+def c_df_order(ctx, it, cfg):
+    """the precipitate composition returned with the driving force lists, at position i, the fraction of the solute NAMED elements[1+i] -- for every ordering
+    (the back end keeps its composition sets in alphabetical order); the driving force itself does not depend on the ordering"""
+    els = cfg['elements']
+    th, v = mk_therm(ctx, it, els)
+    th.fields.update(_compset_cache_df={}, _matrix_cs=None, _points_cache={})
+    solutes, nonva = els[1:-1], els[:-1]
+    alpha = sorted(nonva)
+    alpha_sol = [e for e in alpha if e != els[0]]
+    mod = it.load(TH)
+    cs_m = CompSet(ctx, 'csm', 'FCC_A1', nonva, v)
+    cs_p = CompSet(ctx, 'csp', 'GAMMA_PRIME', nonva, v)
+    XP = dict(zip(alpha, cs_p.X))
+    XM = dict(zip(alpha, cs_m.X))
+    mu_parent = {e: real(ctx, 'mu_parent_%s' % e) for e in alpha}
+    mu_eq = {e: real(ctx, 'mu_eq_%s' % e) for e in alpha}
+
+    class Res(object):
+        chemical_potentials = NP.array([mu_parent[e] for e in alpha])
+    th.fields['getLocalEq'] = lambda x, T, g, phases, composition_sets=None: (Res(), [cs_m])
+    dg_s = real(ctx, 'dg_sampling')
+    th.fields['_getPrecCompositionSetSamplingDF'] = lambda x, T, mu, precPhase, cond=None: (dg_s, cs_p)
+    th.fields['_getCompositionSetsForDF'] = lambda x, T, precPhase: (NP.array([mu_eq[e] for e in alpha]), cs_m, cs_p)
+    H = {(a, b): real(ctx, 'H_%s_%s' % (a, b)) for a in alpha_sol for b in alpha_sol}
+    mod.env['dMudX'] = lambda mu, cs, ref: NP.array([[H[(a, b)] for b in alpha_sol] for a in alpha_sol])
+    xu = {e: real(ctx, 'x_%s' % e) for e in solutes}
+    x = NP.array([xu[e] for e in solutes])
+    T = real(ctx, 'T')
+    meth = {'sampling': '_getDrivingForceSampling', 'approximate': '_getDrivingForceApprox', 'curvature': '_getDrivingForceCurvature'}[cfg['method']]
+    sx = snapshot(x)
+    dg, xb = getattr(th, meth)(x, T, 'GAMMA_PRIME', True)
+    xbv = [xb] if not isinstance(xb, ArrBase) or xb.ndim == 0 else [xb.get(i) for i in range(xb.shape[0])]
+    ctx.prove('one-fraction-per-solute', len(xbv) == len(solutes))
+    for i, e in enumerate(solutes):
+        ctx.prove('precipitate-composition[%d]-is-the-fraction-of-%s' % (i, e), eq(xbv[i], XP[e]))
+    if len(solutes) >= 2:
+        ctx.prove('canary/first-position-holds-the-last-solute', eq(xbv[0], XP[solutes[-1]]), expect='refuted')
+    if cfg['method'] == 'sampling':
+        ctx.prove('driving-force-is-the-sampled-one', eq(dg, dg_s))
+    elif cfg['method'] == 'approximate':
+        want = 0
+        for e in alpha:
+            want = want + XP[e] * (mu_parent[e] - mu_eq[e])
+        ctx.prove('driving-force = sum_e x_e^beta (mu_e(matrix) - mu_e(two-phase))', eq(dg, want))
+    else:
+        want = 0
+        for a in alpha_sol:
+            for b in alpha_sol:
+                want = want + (xu[a] - XM[a]) * H[(a, b)] * (XP[b] - XM[b])
+        ctx.prove('driving-force = (x - x_alpha)^T H (x_beta - x_alpha) with every factor taken for the same NAMED solute', eq(dg, want))
+    unchanged(ctx, 'arg:x', sx, x)
+
+
+@REG.contract('phase-order/aspect-ratio-table-of-each-phase', ['kawin.precipitation.KWNEuler:PrecipitateModel._setupAspectRatio'],
+              configs=[dict(name='calc=%s' % ''.join('TF'[not c] for c in calc), calc=calc) for calc in ((True, True), (True, False), (False, True))])
+def c_aspect_binding(ctx, it, cfg):
+    """a phase whose aspect ratio is computed from the strain energy interpolates ITS OWN table, wherever it stands in the phase list"""
+    from .kwn import mk_kwn
+    P = 2
+    m, pd, n = mk_kwn(ctx, it, P, 1)
+    log, funcs = [], {}
+    for p, prm in enumerate(m.fields['precipitateParameters']):
+        prm.calculateAspectRatio = cfg['calc'][p]
+        prm.gamma = real(ctx, 'gamma%d' % p, lambda v: v > 0)
+
+        class SE(object):
+            def __init__(self, p):
+                self.p = p
+
+            def eqAR_bySearch(self, R, gamma, shp):
+                log.append(('search', self.p))
+                return ('table', self.p)
+        prm.strainEnergy = SE(p)
+
+        class SF(object):
+            def __init__(self, p):
+                self.p = p
+
+            def setAspectRatio(self, f):
+                funcs[self.p] = f
+
+            def aspectRatio(self, R):
+                return ('constant-table', self.p)
+        prm.shapeFactor = SF(p)
+    for o in m.fields['PBM']:
+        o.fields['reset'] = lambda *a, **k: None
+    m.fields['_interpolateAspectRatio'] = lambda R, p: ('interp', R, p)
+    m._setupAspectRatio()
+    tab = m.fields['eqAspectRatio']
+    for p in range(P):
+        if cfg['calc'][p]:
+            ctx.prove('phase%d/table-computed-from-its-own-strain-energy' % p, tab[p] == ('table', p))
+            R = object()
+            ctx.prove('phase%d/aspect-ratio-function-installed' % p, p in funcs)
+            if p in funcs:
+                r = funcs[p](R)
+                ctx.prove('phase%d/interpolates-its-own-table' % p, r == ('interp', R, p))
+        else:
+            ctx.prove('phase%d/constant-aspect-ratio-kept' % p, tab[p] == ('constant-table', p) and p not in funcs)
